@@ -32,7 +32,7 @@ REPO = os.environ.get("VERIF_REPO", "/repo")
 DROPPED_ATTR_RE = re.compile(
     r"#\[\s*(inline(\([^)]*\))?|must_use(\s*=\s*\"[^\"]*\")?|expect\([^\]]*\)|allow\([^\]]*\)|"
     r"cfg\(feature\s*=\s*\"alloc\"\)|no_mangle|cfg\(not\(feature\s*=\s*\"vdso\"\)\)|"
-    r"cfg\(test\)|doc\s*=[^\]]*|cfg\(feature\s*=\s*\"start\"\)|cfg\(not\(feature\s*=\s*\"start\"\)\))\s*\]")
+    r"cfg\(test\)|doc\s*=[^\]]*|cfg\(feature\s*=\s*\"aux\"\)|cfg\(not\(feature\s*=\s*\"aux\"\)\)|cfg\(feature\s*=\s*\"start\"\)|cfg\(not\(feature\s*=\s*\"start\"\)\))\s*\]")
 
 
 class Extracted:
